@@ -35,7 +35,7 @@ Qed.
 Lemma v2_labels_some : forall symbols refs ls, v2_labels symbols refs = Some ls ->
   forallb (in_range symbols) refs = true /\ ls = spec_labels symbols refs.
 Proof.
-  intros symbols refs ls H. unfold v2_labels in H. rewrite refs_are_checked in H. cbn [negb] in H.
+  intros symbols refs ls H. unfold v2_labels in H.
   destruct (forallb (in_range symbols) refs); [|discriminate].
   inversion H. split; [reflexivity|]. apply pair_up_spec.
 Qed.
@@ -43,7 +43,7 @@ Qed.
 Lemma v2_labels_none : forall symbols refs, v2_labels symbols refs = None ->
   forallb (in_range symbols) refs = false.
 Proof.
-  intros symbols refs H. unfold v2_labels in H. rewrite refs_are_checked in H. cbn [negb] in H.
+  intros symbols refs H. unfold v2_labels in H.
   destruct (forallb (in_range symbols) refs); [discriminate|reflexivity].
 Qed.
 
